@@ -50,6 +50,7 @@ func makeDeadline(d time.Duration) fasttime {
 
 	// Start or extend clock if necessary.
 	if end > fast.clockEnd.read() {
+		verifPoint(verifPtMakeDeadline)
 		// If time.Since(last use) > timeout, there's a chance that
 		// fast.current will no longer be updated, which can lead to
 		// incorrect 'end' calculations that can trigger a false timeout
@@ -97,6 +98,7 @@ func stopClock() {
 	}
 	fast.mu.Unlock()
 
+	verifPoint(verifPtStopClock)
 	// pause until not running
 	// get and release the lock
 	isRunning := true
@@ -127,6 +129,7 @@ func runClock() {
 		// Unlock while sleeping.
 		fast.mu.Unlock()
 		time.Sleep(clockPeriod)
+		verifPoint(verifPtClockWake)
 		fast.mu.Lock()
 
 		newTime := durationToTicks(time.Since(fast.start))
